@@ -1,3 +1,4 @@
+import BumpVerif.Proofs.VecNth
 import BumpVerif.Proofs.VecOwn
 import BumpVerif.Proofs.VecFilter
 import BumpVerif.Proofs.VecDrain
@@ -204,3 +205,6 @@ end Bump.V.C15
 #print axioms Bump.V.C15.C15_into_boxed_slice
 #print axioms Bump.V.C15.C15_vec_macro_list
 #print axioms Bump.V.C15.C15_vec_macro_n
+-- `into_iter().nth(n)` (core's default `Iterator::nth` on the owning iterator), Proofs/VecNth.lean
+#print axioms Bump.V.intoIterNthOp_own
+#print axioms Bump.V.intoIterNthOp_own_leak
